@@ -178,7 +178,11 @@ where
     }
 
     fn is_pipeline(&self) -> bool {
-        self.as_ref().contains('|') || self.as_ref().contains('<') || self.as_ref().contains('>')
+        // Comments may contain anything, including step separators, so we must ignore them
+        self.as_ref().replace('\r', "\n").lines().any(|line| {
+            let code = line.split('#').next().unwrap_or_default();
+            code.contains('|') || code.contains('<') || code.contains('>')
+        })
     }
 
     fn is_resource_name(&self) -> bool {
